@@ -25,6 +25,12 @@ CLAIMED = {
  "C07": ("PC", "deterministic simulation of the real h1::Payload channel: seeded search over interleavings of single feeder/reader operations with counting wakers, checked operation by operation against a byte-queue reference model",
          "Seeded exploration: sequences of up to 14 single operations (feed_data with sizes straddling 32 KiB, feed_eof, set_error, sender drop, need_read, reader poll, unread_data, reader drop) in every interleaving the generator draws, against a reference model (byte queue + eof/err/sender-gone). Exact bytes, truthful ending (error before clean end, never a clean end for a cut-short body), reader wake-up on every event after a Pending poll, feeder wake-up once drained below the limit. Sampling (≈3M sequences per quick run), not proof.",
          "The reader stops polling once it has observed an end; when exactly Pause is reported is C05's subject.", "§4 C07"),
+ "C11": ("WK", "deterministic simulation of one real App service instance (one worker) shared by several HTTP/1 connections over scripted sockets: seeded search over request histories x interleavings of delivery, handler suspension, clone release and connection abort; metamorphic oracle against a fresh service instance plus sent-vs-seen oracle",
+        "Seeded exploration: 2–12 requests over 1–4 connections through ONE App/AppInitService (scopes with their own app_data, named and parameterised resources, a middleware that sets a request extension for some requests, on_connect data per connection) under simulator-chosen interleavings: which connection's request is delivered next, when a gated handler resumes, when kept HttpRequest clones are dropped (delayed recycling), a connection task dropped while its handler is suspended, and every 50th run 135 parked requests so that the 128-entry request pool overflows. Each handler dumps everything reachable from HttpRequest (method, URI, version, headers, match_info, match name/pattern, extensions, connection data, app_data at each level, peer address) at entry and after its suspension; each dump must equal the dump a freshly built service instance gives for that request alone, must equal what the peer sent, and must not change across the suspension. Sampling, not proof.",
+        "The message pool of actix-http is thread-local and therefore shared with the reference run; the sent-vs-seen oracle covers what that could mask. HTTP/1 only.", "§4 C11"),
+ "C13": ("CC", "deterministic simulation of the real Compress middleware and encoding::Decoder over scripted body streams: seeded search over Accept-Encoding lists x body kinds/sizes x chunkings with Pending x content types/statuses x stream faults; reference codecs and an independent RFC 7231 acceptability rule",
+        "Seeded exploration: responses produced through App.wrap(Compress) for generated Accept-Encoding header values (q-values, wildcard, identity exclusions, unknown codings, duplicates), bodies None/sized/streamed from 0 B to MBs in chunks with Pending between them, statuses/content types/handler-set Content-Encoding; the chosen coding must be acceptable under an independently written RFC 7231 §5.3.4 rule (or 406), headers must agree with the bytes (Content-Encoding, Vary, no stale Content-Length), and the body decoded by the reference codec must equal what the handler produced; request bodies with Content-Encoding are decoded under chunkings and truncations and must equal the original or fail, never a clean short body. Sampling, not proof.",
+        "Bit flips inside br/zstd streams are not judged (the formats carry no checksum by default); only truncation is. Handler-set Content-Length is not judged at middleware level.", "§4 C13"),
  "C12": ("EX", "deterministic simulation of the real extractor futures over a scripted payload stream under a wake-driven executor: seeded search over limits x decoded lengths around the limit x chunkings with Pending x content codings x declared lengths x stream faults; every scenario also run under the trivial schedule (metamorphic)",
          "Seeded exploration: Bytes, String, Json, Form and Payload::to_bytes_limited extractors with limits 0…256 KiB, decoded lengths limit-1/limit/limit+1/10x/multi-MB, 1-byte to 100 KB chunks straddling the in-place/spawn_blocking decode thresholds, Pending between chunks, identity/gzip/deflate/br/zstd, absent/honest/lying Content-Length, payload errors and truncated compressed streams. Success implies a value within the limit and equal to what was sent; a decoded body over the limit yields the extractor's overflow error (never success, never a parse error of a prefix); the outcome class is the same under the drawn chunking and as a single chunk; live-heap growth during extraction stays within 2x limit + 2 chunks + a fixed slack even for multi-MB bodies (identity/gzip/deflate). Sampling, not proof.",
          "MultipartForm field limits are not driven here; the heap bound is not checked for brotli/zstd (their contexts are megabytes by themselves).", "§4 C12"),
